@@ -25,6 +25,7 @@ import Verif.Properties.C01Name
 #print axioms C01.import_preserves_meaning
 #print axioms C01.name_dependents_loop_preserves_meaning
 #print axioms C01.nameWith_with_dependents_preserves_meaning
+#print axioms C01.schema_entries_hold
 #print axioms C01.ImportExample.example_applies
 #print axioms C01.rewriteSchemaToRef_is_setAt
 #print axioms C01.tiny_targetsOK
